@@ -21,7 +21,7 @@ Section CalcP.
   Proof. intros (R & (a & Ha & Ea) & _). unfold Calc.get_energy. rewrite Ha, R, Ea. reflexivity. Qed.
 
   Definition cost (s : cst) (o : outcome C) : nat :=
-    match o with Failed => 0 | Rejected c' | Accepted c' => if ceq (cfg s) c' then 0 else 1 end.
+    match o with Failed => 0 | Rejected c' | Accepted c' | Edited c' => if ceq (cfg s) c' then 0 else 1 end.
 
   Lemma eval_after_propose (s : cst) c' : Coherent s ->
     let r := get_energy (propose C V s c') in
@@ -36,9 +36,31 @@ Section CalcP.
     - repeat split; try reflexivity; try lia. exists c'. split; [reflexivity|apply ceq_refl].
   Qed.
 
+  (* validate_simulation makes the state coherent whatever the calculator held before, provided what it holds is truthful (results computed
+     for calc.atoms): the first run, a run after a restart, and a run after the user changed the atoms; at most one evaluation *)
+  Theorem validate_coherent (s : cst) : (forall a e, catoms s = Some a -> cres s = Some e -> e = E a) ->
+    Coherent (validate C V E ceq s) /\ evals (validate C V E ceq s) <= S (evals s).
+  Proof.
+    intros Hon. unfold validate.
+    unfold Calc.get_energy. cbn [catoms cres cfg].
+    destruct (catoms s) as [a|] eqn:Ha; [destruct (cres s) as [e|] eqn:He; [destruct (ceq a (cfg s)) eqn:Q|]|]; cbn.
+    - pose proof Q as Q'. apply ceq_spec in Q'. subst a. pose proof (Hon (cfg s) e eq_refl eq_refl) as Ee. subst e.
+      split; [|lia]. unfold Calc.Coherent. cbn. repeat split; try reflexivity. exists (cfg s). split; [reflexivity|exact Q].
+    - split; [|lia]. unfold Calc.Coherent. cbn. repeat split; try reflexivity. exists (cfg s). split; [reflexivity|apply ceq_refl].
+    - split; [|lia]. unfold Calc.Coherent. cbn. repeat split; try reflexivity. exists (cfg s). split; [reflexivity|apply ceq_refl].
+    - split; [|lia]. unfold Calc.Coherent. cbn. repeat split; try reflexivity. exists (cfg s). split; [reflexivity|apply ceq_refl].
+  Qed.
+  (* the cost of a run start after the user set the atoms to c': one evaluation iff the configuration changed *)
+  Lemma validate_after_edit (s : cst) c' : Coherent s -> evals (validate C V E ceq (propose C V s c')) = evals s + (if ceq (cfg s) c' then 0 else 1).
+  Proof.
+    intros (R & (a & Ha & Ea) & _). apply ceq_spec in Ea. subst a.
+    unfold validate, Calc.get_energy, propose. cbn [catoms cres cfg]. rewrite Ha, R.
+    destruct (ceq (cfg s) c'); cbn; lia.
+  Qed.
+
   Theorem trial_coherent (s : cst) (o : outcome C) : Coherent s -> Coherent (trial s o) /\ evals (trial s o) = evals s + cost s o.
   Proof.
-    intro H. pose proof H as (R & (a & Ha & Ea) & Le & Lc & Lr). destruct o as [|c'|c']; cbn [Calc.trial cost].
+    intro H. pose proof H as (R & (a & Ha & Ea) & Le & Lc & Lr). destruct o as [|c'|c'|c']; cbn [Calc.trial cost].
     - split; [exact H|lia].
     - destruct (eval_after_propose s c' H) as (_ & _ & _ & _ & A5 & A6 & A7 & A8).
       set (t := snd (get_energy (propose C V s c'))) in *. unfold revert. split; [|cbn; exact A8].
@@ -49,6 +71,9 @@ Section CalcP.
       { unfold Calc.get_energy. rewrite Hb, A3, A2, Eb. reflexivity. }
       unfold save. rewrite G. split; [|cbn; exact A8].
       unfold Calc.Coherent. cbn. rewrite A2, A3. repeat split; try reflexivity. exists b. split; [exact Hb|exact Eb].
+    - split; [|apply validate_after_edit; exact H].
+      apply validate_coherent. intros a0 e0 Ha0 He0. cbn [propose catoms cres] in Ha0, He0.
+      rewrite Ha in Ha0. rewrite R in He0. inversion Ha0; inversion He0; subst. apply ceq_spec in Ea. now subst.
   Qed.
 
   Fixpoint total_cost (os : list (outcome C)) (s : cst) : nat :=
@@ -60,25 +85,11 @@ Section CalcP.
     induction os as [|o r IH]; intros s H; cbn [Calc.run fold_left total_cost]; [split; [exact H|lia]|].
     destruct (trial_coherent s o H) as [H1 H2]. destruct (IH _ H1) as [H3 H4]. unfold Calc.run in *. split; [exact H3|]. rewrite H4, H2. lia.
   Qed.
-  Lemma total_cost_le os : forall s : cst, total_cost os s <= length (filter (reached C) os).
+  Lemma total_cost_le os : forall s : cst, total_cost os s <= length (filter (reached C) os) + length (filter (edited C) os).
   Proof.
     induction os as [|o r IH]; intro s; [simpl; lia|].
     cbn [total_cost filter]. pose proof (IH (trial s o)) as I.
-    destruct o as [|c'|c']; cbn [cost reached length] in *; [lia| |]; destruct (ceq (cfg s) c'); lia.
+    destruct o as [|c'|c'|c']; cbn [cost reached edited length] in *; [lia| | |]; destruct (ceq (cfg s) c'); lia.
   Qed.
 
-  (* the initial reference energy: after validate_simulation the state is coherent, whatever the calculator held before,
-     provided what it holds is truthful (results computed for calc.atoms) *)
-  Theorem validate_coherent (s : cst) : last_e s = None -> (forall a e, catoms s = Some a -> cres s = Some e -> e = E a) ->
-    Coherent (validate C V E ceq s) /\ evals (validate C V E ceq s) <= S (evals s).
-  Proof.
-    intros N Hon. unfold validate. cbn [last_e]. rewrite N.
-    unfold Calc.get_energy. cbn [catoms cres cfg].
-    destruct (catoms s) as [a|] eqn:Ha; [destruct (cres s) as [e|] eqn:He; [destruct (ceq a (cfg s)) eqn:Q|]|]; cbn.
-    - pose proof Q as Q'. apply ceq_spec in Q'. subst a. pose proof (Hon (cfg s) e eq_refl eq_refl) as Ee. subst e.
-      split; [|lia]. unfold Calc.Coherent. cbn. repeat split; try reflexivity. exists (cfg s). split; [reflexivity|exact Q].
-    - split; [|lia]. unfold Calc.Coherent. cbn. repeat split; try reflexivity. exists (cfg s). split; [reflexivity|apply ceq_refl].
-    - split; [|lia]. unfold Calc.Coherent. cbn. repeat split; try reflexivity. exists (cfg s). split; [reflexivity|apply ceq_refl].
-    - split; [|lia]. unfold Calc.Coherent. cbn. repeat split; try reflexivity. exists (cfg s). split; [reflexivity|apply ceq_refl].
-  Qed.
 End CalcP.
